@@ -598,6 +598,183 @@ fn d18d() -> R {
     Ok(())
 }
 
+
+// ---- format-inherent findings (open): expected to be VIOLATED, listed in known_findings.txt ------
+/// like raw_table, but every handle is shifted by `base` (the table will sit at offset `base` of a larger file)
+fn raw_table_at(base: usize, blocks: &[(Vec<u8>, Vec<u8>)]) -> Vec<u8> {
+    let mut f = vec![];
+    let mut ix = vec![];
+    for (c, k) in blocks.iter() {
+        let h = handle(base + f.len(), c.len());
+        f.extend_from_slice(&raw_block(c, 0));
+        ix.push((k.clone(), h));
+    }
+    let mc = simple_block(&[]);
+    let mh = handle(base + f.len(), mc.len());
+    f.extend_from_slice(&raw_block(&mc, 0));
+    let ic = simple_block(&ix);
+    let ih = handle(base + f.len(), ic.len());
+    f.extend_from_slice(&raw_block(&ic, 0));
+    let mut foot = mh;
+    foot.extend_from_slice(&ih);
+    foot.resize(40, 0);
+    foot.extend_from_slice(&[0x57, 0xfb, 0x80, 0x8b, 0x24, 0x75, 0x47, 0xdb]);
+    f.extend_from_slice(&foot);
+    f
+}
+/// F1 (C15): a value that embeds a complete table relocated to its own position makes one strict
+/// prefix of the outer file a valid table
+fn f1() -> R {
+    // [shared=0][non_shared=1][valsize varint]["k"] precede the value: 4 bytes if the value is < 128 bytes, else 5
+    let mut base = 4;
+    let mut inner = raw_table_at(base, &[(simple_block(&[e(b"x", b"1")]), b"y".to_vec())]);
+    if inner.len() >= 128 {
+        base = 5;
+        inner = raw_table_at(base, &[(simple_block(&[e(b"x", b"1")]), b"y".to_vec())]);
+    }
+    let mut o = opts(4096, 16);
+    o.filter_policy = Arc::new(Box::new(NoFilterPolicy::new()));
+    let img = build(&o, &[(b"k", &inner[..])]);
+    let n = base + inner.len();
+    if img[base..n] != inner[..] {
+        return Ok(()); // layout assumption does not hold: finding not reproduced
+    }
+    match Table::new(o, Box::new(img[..n].to_vec()), n) {
+        Ok(t) => Err(format!("strict prefix of length {} of a {} byte table opens as a table with {} entries", n, img.len(), scan(&t).len())),
+        Err(_) => Ok(()),
+    }
+}
+/// F4 (C19): for the single key equal to the last index key (above every stored key) the approximate
+/// offset is the START of the last data block, not >= its end
+fn f4() -> R {
+    let o = opts(8, 16);
+    let img = build(&o, &[(b"a", b"1"), (b"zzz", b"2")]);
+    let t = open(&o, img);
+    let last_start = t.approx_offset_of(b"zzz");
+    let probe = t.approx_offset_of(b"zzz\0");
+    if probe <= last_start {
+        Err(format!("approx_offset_of(\"zzz\\0\") = {} = start of the last data block, although the key is above every stored key", probe))
+    } else {
+        Ok(())
+    }
+}
+fn crc32c_of(b: &[u8]) -> u32 {
+    let c = crc::Crc::<u32>::new(&crc::CRC_32_ISCSI);
+    let mut d = c.digest();
+    d.update(b);
+    d.finalize()
+}
+/// F2 (C07): CRC-32C collisions are constructible: alter a value byte of a data block and patch 4
+/// other bytes so that the checksum still matches; the reader then returns the altered value
+fn f2() -> R {
+    let o = opts(4096, 16);
+    let val = vec![b'v'; 24];
+    let img = build(&o, &[(b"key", &val[..])]);
+    // first data block: contents end where the first trailer begins; locate by the value bytes
+    let vpos = (0..img.len()).find(|&i| img[i..].starts_with(&val)).ok_or("layout")?;
+    // block contents = img[0..bl], type byte at bl
+    let t = open(&o, img.clone());
+    let bl = t.approx_offset_of(b"zzzz") ; // metaindex/filter offset is beyond; find the trailer by scanning
+    let _ = bl;
+    // the data block is the first physical block: its length is given by the index; easier: try all lengths
+    let mut blen = 0;
+    for l in (vpos + val.len())..img.len() - 5 {
+        let mut d = img[..l + 1].to_vec();
+        let _ = &mut d;
+        let stored = u32::from_le_bytes([img[l + 1], img[l + 2], img[l + 3], img[l + 4]]);
+        if mask_crc(crc32c_of(&img[..l + 1])) == stored {
+            blen = l;
+            break;
+        }
+    }
+    if blen == 0 {
+        return Ok(());
+    }
+    let body = img[..blen + 1].to_vec();
+    let target = crc32c_of(&body);
+    // flip one value byte, then fix 4 other value bytes (32 unknown bits) by linear algebra over GF(2)
+    let mut forged = body.clone();
+    forged[vpos] ^= 0x01;
+    let fix = vpos + 8; // 4 bytes we are free to change
+    let base = crc32c_of(&forged);
+    let want = base ^ target;
+    // columns: effect of flipping bit j of the 4-byte window on the CRC (linear)
+    let mut cols = [0u32; 32];
+    for j in 0..32 {
+        let mut x = forged.clone();
+        x[fix + j / 8] ^= 1 << (j % 8);
+        cols[j] = crc32c_of(&x) ^ base;
+    }
+    // gaussian elimination: find subset of columns xoring to `want`
+    let mut basis: Vec<(u32, u32)> = vec![]; // (vector, mask of columns)
+    for j in 0..32 {
+        let (mut v, mut m) = (cols[j], 1u32 << j);
+        for (bv, bm) in basis.iter() {
+            if v & (1 << (31 - bv.leading_zeros())) != 0 {
+                v ^= bv;
+                m ^= bm;
+            }
+        }
+        if v != 0 {
+            basis.push((v, m));
+            basis.sort_by(|a, b| b.0.cmp(&a.0));
+        }
+    }
+    let (mut v, mut m) = (want, 0u32);
+    for (bv, bm) in basis.iter() {
+        if v & (1 << (31 - bv.leading_zeros())) != 0 {
+            v ^= bv;
+            m ^= bm;
+        }
+    }
+    if v != 0 {
+        return Ok(());
+    }
+    for j in 0..32 {
+        if m & (1 << j) != 0 {
+            forged[fix + j / 8] ^= 1 << (j % 8);
+        }
+    }
+    if crc32c_of(&forged) != target {
+        return Ok(());
+    }
+    let mut img2 = img.clone();
+    img2[..blen + 1].copy_from_slice(&forged);
+    let t2 = open(&o, img2);
+    match t2.get(b"key") {
+        Ok(Some(v)) if v != val => Err(format!("5 altered bytes pass the checksum; get(\"key\") returns an altered value ({} bytes differ)", v.iter().zip(val.iter()).filter(|(a, b)| a != b).count())),
+        _ => Ok(()),
+    }
+}
+/// F3 (C07): the footer is not integrity-protected: swapping its two handles type-confuses the
+/// blocks and a stored key is reported absent
+fn f3() -> R {
+    let o = opts(4096, 16);
+    let img = build(&o, &[(b"zzz", b"1")]);
+    let n = img.len();
+    // decode the two handles and write them back in swapped order
+    use integer_encoding::VarInt;
+    let foot = &img[n - 48..n - 8];
+    let (a, la) = usize::decode_var(foot).ok_or("footer")?;
+    let (b, lb) = usize::decode_var(&foot[la..]).ok_or("footer")?;
+    let (c, lc) = usize::decode_var(&foot[la + lb..]).ok_or("footer")?;
+    let (d, _) = usize::decode_var(&foot[la + lb + lc..]).ok_or("footer")?;
+    let mut f = vec![];
+    for x in [c, d, a, b].iter() {
+        varint(*x, &mut f);
+    }
+    f.resize(40, 0);
+    let mut img2 = img.clone();
+    img2[n - 48..n - 8].copy_from_slice(&f);
+    match Table::new(o, Box::new(img2), n) {
+        Ok(t) => match t.get(b"zzz") {
+            Ok(None) => Err("footer handles swapped: the table opens and get(\"zzz\") reports a stored key as absent".into()),
+            _ => Ok(()),
+        },
+        Err(_) => Ok(()),
+    }
+}
+
 const ALL: &[(&str, &str, fn() -> R)] = &[
     ("D1-display-recursion", "C20", d1),
     ("D2-snap-error-code", "C20", d2),
@@ -627,6 +804,10 @@ const ALL: &[(&str, &str, fn() -> R)] = &[
     ("D18b-empty-data-block-prev", "C08", d18b),
     ("D18c-index-value-not-a-handle", "C08", d18c),
     ("D18d-malformed-filter-block", "C08", d18d),
+    ("F1-embedded-table-prefix", "C15", f1),
+    ("F2-crc-collision", "C07", f2),
+    ("F3-footer-handles-swapped", "C07", f3),
+    ("F4-last-separator-offset", "C19", f4),
 ];
 
 fn main() {
@@ -641,7 +822,7 @@ fn main() {
             let name = &args[2];
             for (n, _, f) in ALL {
                 if n == name {
-                    std::panic::set_hook(Box::new(|_| {}));
+                    if std::env::var("VERIF_PANIC_TRACE").is_err() { std::panic::set_hook(Box::new(|_| {})); }
                     let r = std::panic::catch_unwind(|| f());
                     match r {
                         Ok(Ok(())) => std::process::exit(0),
@@ -674,6 +855,13 @@ fn main() {
                     .output()
                     .unwrap();
                 let detail = String::from_utf8_lossy(&out.stdout).trim().replace('\n', " | ");
+                if n.starts_with('F') {
+                    match out.status.code() {
+                        Some(1) => println!("{} {} OPEN-REPRODUCED {}", n, p, detail),
+                        c => println!("{} {} OPEN-not-reproduced status={:?} {}", n, p, c, detail),
+                    }
+                    continue;
+                }
                 match out.status.code() {
                     Some(0) => println!("{} {} ok", n, p),
                     Some(1) => {
